@@ -75,3 +75,38 @@ def two_class_single(name, family, c=1, K=2, T=20.0, prios=(0, 1), preempt=False
     A = klass([arrA or ARR], [srvA or SRV2], prio=prios[0], **(ckwA or {}))
     B = klass([arrB or [1.0, 2.0]], [srvB or SRV2], prio=prios[1], **(ckwB or {}))
     return cfg(name, family, [n], {"A": A, "B": B}, K=K, T=T, D=D, features=features, **kw)
+
+
+# ------------------------------------------------------------------------------------------------
+# shared focused families (used by several properties)
+# ------------------------------------------------------------------------------------------------
+def noserver_upstream_block(tier, fam="F-noserver-block"):
+    """infinite-server / slotted / PS node feeding a full finite node, simultaneous service ends (batches)"""
+    K = 2 if tier == "quick" else 3
+    out = []
+    ups = [("inf", {"c": "inf"}), ("slotted", {"c": {"slotted": {"slots": [1.0, 2.0], "sizes": [2, 2], "capacitated": False, "preempt": False}}}),
+           ("ps", {"c": "inf", "ps": True})]
+    for name, nk in ups:
+        up = dict(nk)
+        up.setdefault("cap", None)
+        for fb in (0.0, 0.5):
+            out.append(cfg("%s upstream block fb=%s" % (name, fb), fam, [up, node(c=1, cap=0)],
+                           {"A": klass([[0.5, 1.0], None], [[1.0], [2.0, 0.5]], batch=[[2, 1], None],
+                                       route=matrix([[0.0, 1.0], [fb, 0.0]]))},
+                           K=K, T=9.0, D=(INF if fb == 0.0 else (4 if tier == "quick" else 6)), features=["blocking", name, "ties"]))
+    return out
+
+
+def sched_preempt_two_upstream(tier, fam="F-sched-preempt-block3", opts=("resume", "restart", "resample")):
+    """two upstream nodes (one with a pre-emptive schedule) blocked towards one destination that is kept full by
+    its own external arrival; servers return while the customer is still blocked, then the destination frees"""
+    out = []
+    k = 1 if tier == "quick" else 2
+    for opt in opts:
+        out.append(cfg("two upstream (sched %s) one dest" % opt, fam,
+                       [node(c={"sched": {"numbers": [1, 0], "ends": [2.0, 3.0], "preempt": opt}}), node(c=1), node(c=1, cap=0)],
+                       {"A": klass([{"values": [0.5, 1.0], "budget": k}, {"values": [0.5, 1.0], "budget": k}, {"values": [0.5], "budget": 1}],
+                                   [[1.0, 3.0], [0.5, 1.0], [3.0, 4.0]],
+                                   route=matrix([[0.0, 0.0, 1.0], [0.0, 0.0, 1.0], [0.0, 0.0, 0.0]]))},
+                       K=k, T=16.0, features=["blocking", "schedule", "preempt_sched"]))
+    return out
